@@ -44,7 +44,10 @@ type c13Case struct {
 	RR bool `json:"rr,omitempty"`
 	// Early: the handler answers after the first request message without
 	// waiting for the end of the request stream (calls send one message).
-	Early  bool  `json:"early,omitempty"`
+	Early bool `json:"early,omitempty"`
+	// DuplexHandler: the bidi handler answers each request from a second
+	// goroutine while its main loop is already receiving the next one.
+	DuplexHandler bool `json:"duplex_handler,omitempty"`
 	Bound  int   `json:"bound"`
 	Sub    int   `json:"sub"`  // sub-shard of the root's children
 	Subs   int   `json:"subs"` //
@@ -121,6 +124,45 @@ func c13HandlerEarly(kind Kind, rec *c13Recorder, early bool, opts ...connect.Ha
 			return nil
 		}
 		return s.Send(&BV{Value: append([]byte{'r'}, bytes.Join(got, nil)...)})
+	}, opts...)
+}
+
+// c13DuplexHandler: full-duplex bidi handler - the receive loop hands every
+// request to a second goroutine, which answers it while the loop is already
+// inside the next Receive.
+func c13DuplexHandler(rec *c13Recorder, opts ...connect.HandlerOption) *connect.Handler {
+	return NewHandler(KBidi, func(ctx context.Context, s HStream) error {
+		id := s.RequestHeader().Get("X-Call")
+		s.ResponseHeader().Set("X-Echo", id)
+		s.ResponseTrailer().Set("X-Tr", id)
+		work := make(chan []byte, 16)
+		sendErr := make(chan error, 1)
+		go func() {
+			var err error
+			for g := range work {
+				if err == nil {
+					err = s.Send(&BV{Value: append([]byte{'r'}, g...)})
+				}
+			}
+			sendErr <- err
+		}()
+		var recvErr error
+		for {
+			m, err := s.Receive()
+			if err != nil {
+				if !errors.Is(err, io.EOF) {
+					recvErr = err
+				}
+				break
+			}
+			rec.retain("handler-recv:"+id, m.Value)
+			work <- cloneBytes(m.Value)
+		}
+		close(work)
+		if err := <-sendErr; err != nil {
+			return err
+		}
+		return recvErr
 	}, opts...)
 }
 
@@ -301,6 +343,9 @@ func c13Body(k c13Case, s *bsched.Sched) any {
 	obs := &c13Obs{}
 	rec := &c13Recorder{}
 	h := c13HandlerEarly(k.Cfg.Kind, rec, k.Early, k.Cfg.HandlerOptions()...)
+	if k.DuplexHandler {
+		h = c13DuplexHandler(rec, append(k.Cfg.HandlerOptions(), connect.WithCompressMinBytes(1))...)
+	}
 	c13Pre(k, h)
 	tr := &memhttp.Transport{Handler: h, Proto: 2, ReqMode: k.Cfg.ReqMode, MutateURL: true}
 	if s != nil {
@@ -411,6 +456,9 @@ func c13Solo(t *testing.T, k c13Case) []string {
 		if k.OneBidi {
 			rec := &c13Recorder{}
 			h := c13Handler(k.Cfg.Kind, rec, k.Cfg.HandlerOptions()...)
+			if k.DuplexHandler {
+				h = c13DuplexHandler(rec, append(k.Cfg.HandlerOptions(), connect.WithCompressMinBytes(1))...)
+			}
 			tr := &memhttp.Transport{Handler: h, Proto: 2, ReqMode: k.Cfg.ReqMode, SyncCloseReq: true}
 			cl := NewClient(tr, k.Cfg)
 			var res CallResult
@@ -533,6 +581,14 @@ func c13Scenarios(thorough bool) []c13Case {
 	add("server-server", Cfg{Proto: PConnect, Comp: CompSendGzip, Kind: KServer}, false, small, fail)
 	add("bidi-bidi", Cfg{Proto: PGRPCWeb, Comp: CompDefault, Kind: KBidi}, false, two, small)
 	add("one-bidi-send-recv", Cfg{Proto: PGRPC, Comp: CompDefault, Kind: KBidi}, true, two)
+	// one bidi stream, client sends and receives concurrently, full-duplex handler, compressed both ways
+	for _, p := range AllProtos {
+		for sub := 0; sub < 4; sub++ {
+			for _, rr := range []bool{false, true} {
+				out = append(out, c13Case{Name: "one-bidi-duplex-handler", Cfg: Cfg{Proto: p, Comp: CompSendGzip, Kind: KBidi, HTTP: 2}, Calls: []c13Call{{Sizes: []int{30, 50, 40}}}, OneBidi: true, DuplexHandler: true, Bound: 1, Sub: sub, Subs: 4, RR: rr})
+			}
+		}
+	}
 	out = append(out, c13AfterCorrupt()...)
 	if thorough {
 		big := c13Call{Sizes: []int{5000}}
